@@ -186,10 +186,12 @@ type sim struct {
 	c04NHR         [4]uint64
 	c04View        [2]uint64
 	altUsed        bool
+	hasAlt         int
 	fOnly          bool   // C06: after the first vote op only members of fMask sign, macro rounds are skipped
 	fPhase         bool
 	fMask          uint32 // sanitized: power(fMask) < 1/3 of every set's total
 	fStart         [2]uint64
+	c06Prev        [2]uint64
 	fSigned        map[string]string
 	signed         map[string]map[string]bool
 	phLog          []phLogEntry
